@@ -25,8 +25,9 @@ def run(ctx):
         bad = [e for e in facts["solBody"] if e not in want] + [e for e in want if e not in facts["solBody"]]
         badr = [e for e in facts["ralBody"] if e not in want]
         flags = [k for k in ("goDoubleHash", "solDoubleHash", "ralDoubleHash", "solVersionCheck") if not facts[k]]
-        if bad or badr or flags or facts["ralBodyStart"] != (6, 66):
+        if bad or badr or flags or facts["ralBodyStart"] != (6, 66) or facts.get("ralConvMismatch"):
             ctx.spec_violations.append({"key": "contract-layout-mismatch",
                                         "what": "contract parser layout deviates from the Go serializer: sol=%s ral=%s flags=%s" % (bad, badr, flags),
                                         "replay": {"solBody": facts["solBody"], "ralBody": facts["ralBody"], "expected": want,
-                                                   "ralBodyStart": facts["ralBodyStart"], "missing": flags}})
+                                                   "ralBodyStart": facts["ralBodyStart"], "missing": flags,
+                                                   "ralConvMismatch": facts.get("ralConvMismatch")}})
